@@ -212,6 +212,31 @@ func genLeftover(cfg simkit.RunConfig, backend string) *Scenario {
 				p.Ops = append(p.Ops[:at], append([]Op{lk}, p.Ops[at:]...)...)
 			}
 		}
+		// aggressive (fair) locking stages: start, lock attempts (some failing), retries, then done or cancel
+		if p.Pessimistic && r.Intn(5) < 2 {
+			var blk []Op
+			blk = append(blk, Op{Kind: "aggstart"})
+			attempts := 1 + r.Intn(3)
+			for a := 0; a < attempts; a++ {
+				if a > 0 {
+					blk = append(blk, Op{Kind: "aggretry"})
+				}
+				nl := r.Intn(3) // an attempt may lock nothing at all
+				for j := 0; j < nl; j++ {
+					lk := Op{Kind: "lock", Keys: subset(r, keys, 1, 2), RetVals: r.Intn(2) == 0}
+					switch r.Intn(3) {
+					case 0:
+						lk.NoWait = true
+					default:
+						lk.WaitMs = 20 + r.Intn(300)
+					}
+					blk = append(blk, lk)
+				}
+			}
+			blk = append(blk, Op{Kind: pick(r, []string{"aggdone", "aggdone", "aggcancel"})})
+			at := r.Intn(len(p.Ops) + 1)
+			p.Ops = append(p.Ops[:at], append(blk, p.Ops[at:]...)...)
+		}
 		if r.Intn(4) == 0 {
 			p.End = "rollback"
 		}
@@ -350,5 +375,52 @@ func genRYW(cfg simkit.RunConfig, backend string) *Scenario {
 		sc.Topo = append(sc.Topo, TopoEvent{AtMs: 30 + r.Intn(100), Kind: pick(r, []string{"split", "leader", "merge"}), Key: pick(r, keys)})
 	}
 	sc.Knobs.ScanBatch = []int{0, 2, 3, 5}[r.Intn(4)]
+	return sc
+}
+
+// genGC: mode "gc" (C14): leftover locks of every kind (crashed writers as in mode reads),
+// counts around the scan limit, splits during the scan; then range-task coverage, GC lock
+// resolution with a given worker concurrency, safe-point visibility, delete-range task.
+func genGC(cfg simkit.RunConfig, backend string) *Scenario {
+	sc := genReads(cfg, backend)
+	r := simkit.Rand(cfg.Seed, "gcplan")
+	sc.Reads.Early, sc.Reads.Late, sc.Reads.Final = 0, 1, 2
+	sc.Reads.Unbounded = false
+	bnd := []string{"", "a", "b", "c", "c\x00", "d", "e", "f", "g"}
+	lo, hi := pick(r, bnd), pick(r, bnd)
+	if r.Intn(2) == 0 {
+		lo = ""
+	}
+	if r.Intn(2) == 0 {
+		hi = "" // unbounded end: the last region must be covered too
+	}
+	if lo != "" && hi != "" && hi < lo {
+		lo, hi = hi, lo
+	}
+	// more regions than the default layout, so that tasks span several regions
+	seen := map[string]bool{}
+	for _, k := range sc.Splits {
+		seen[k] = true
+	}
+	for _, k := range []string{"b", "c", "d", "e", "f"} {
+		if !seen[k] && r.Intn(2) == 0 {
+			sc.Splits = append(sc.Splits, k)
+		}
+	}
+	sort.Strings(sc.Splits)
+	dlo, dhi := pick(r, bnd), pick(r, bnd)
+	if dlo != "" && dhi != "" && dhi < dlo {
+		dlo, dhi = dhi, dlo
+	}
+	sc.GC = &GCPlan{Seed: r.Int63(), Concurrency: 1 + r.Intn(8), ScanLimit: []int{0, 1, 2, 3, 8}[r.Intn(5)], RegionsPer: 1 + r.Intn(3),
+		RangeLo: lo, RangeHi: hi, FailAt: -1, DelLo: dlo, DelHi: dhi, DeleteRange: r.Intn(2) == 0}
+	if r.Intn(4) == 0 {
+		sc.GC.FailAt = r.Intn(4)
+	}
+	// topology changes while the GC phase runs (it starts after the writers, ~0.3-1 s)
+	ne := r.Intn(4)
+	for i := 0; i < ne; i++ {
+		sc.Topo = append(sc.Topo, TopoEvent{AtMs: 200 + r.Intn(3000), Kind: pick(r, []string{"split", "leader", "merge"}), Key: pick(r, []string{"a", "b", "c", "d", "e", "f"})})
+	}
 	return sc
 }
